@@ -348,7 +348,10 @@ impl Check for C13 {
         }
     }
     fn run_replay(&mut self, _part: &str, replay: &Value, _env: &mut Env) -> CaseOut {
-        let p = replay["path"].as_str().unwrap_or("a").to_string();
+        let p = match replay["raw_bytes"].as_array() {
+            Some(a) => String::from_utf8_lossy(&a.iter().map(|x| x.as_u64().unwrap_or(0) as u8).collect::<Vec<u8>>()).into_owned(),
+            None => replay["path"].as_str().unwrap_or("a").to_string(),
+        };
         let mut out = CaseOut { evals: 1, ..Default::default() };
         if !survives(|| {
             let _ = canon(&p);
